@@ -59,10 +59,17 @@ def whole_specs(piece):
                 specs[tr]["notes"].append([0, p, on + t0, dur, vel])
         t0 += bar_len(n, d)
     total = t0
+    tp = piece.get("tail_partial")
     for tr in range(nt):
         end = max([x[2] + x[3] for x in specs[tr]["notes"]] + [x[0] for x in specs[tr]["tsigs"]], default=0)
         if piece.get("pad_tracks", [False] * nt)[tr] and end < total:
             specs[tr]["tail"] = total - end
+        elif tp and tp[0] == tr and piece["bars"]:
+            # a trailing rest that ends INSIDE the last bar (neither a note nor a cap on the bar line closes that bar)
+            last_len = bar_len(*piece["bars"][-1]["sig"])
+            target = total - last_len + tp[1]           # tp[1]: ticks into the last bar, on the configuration's rest grid
+            if target > end and target < total:
+                specs[tr]["tail"] = target - end
     return specs, total
 
 
@@ -107,6 +114,17 @@ def chunks_for(piece, route, cuts):
         for lo, hi in groups:
             out.append([Bar.to_sequence(bars[tr][lo:hi]) for tr in range(nt)])
         return out
+    if route == "R4":
+        # harness-built sequences per group, exactly as long as their content (no padding to the bar line, no cap): the
+        # tokeniser's own end-of-call bar closing has to do all the work
+        out = []
+        gt = piece.get("group_tails") or {}
+        for gi_, (lo, hi) in enumerate(groups):
+            sub = dict(piece, bars=piece["bars"][lo:hi], explicit_first=True, pad_tracks=[False] * nt,
+                       tail_partial=(piece.get("tail_partial") if gi_ == len(groups) - 1 else gt.get(str(hi))))
+            specs, _ = whole_specs(sub)
+            out.append([music.build_sequence(sp, "abs") if (sp["notes"] or sp["tsigs"] or sp["tail"]) else Sequence() for sp in specs])
+        return out
     # R3: whole sequences cut with Sequence.split at the group boundaries; later chunks carry no signature message
     seqs, total = build_whole(_r3_piece(piece))
     lens = [sum(bar_len(*piece["bars"][k]["sig"]) for k in range(lo, hi)) for lo, hi in groups]
@@ -127,6 +145,8 @@ def whole_for(piece, route):
     if route == "R2":
         bars = build_bars_R2(piece)
         return [Bar.to_sequence(bars[tr]) for tr in range(nt)]
+    if route == "R4":
+        return build_whole(dict(piece, pad_tracks=[False] * nt))[0]
     return build_whole(_r3_piece(piece))[0]
 
 
@@ -135,7 +155,12 @@ def _r3_piece(piece):
     message of its source (nothing follows it to be carried over) - a defect of split conservation (C08, not applicable
     here) that would otherwise make the *chunk production* lose a signature the single call still sees."""
     pads = list(piece.get("pad_tracks", [False] * piece["ntracks"]))
-    pads[0] = True
+    specs, total = whole_specs(piece)
+    s0 = specs[0]
+    last_note_end = max([x[2] + x[3] for x in s0["notes"]], default=0)
+    last_sig = max([x[0] for x in s0["tsigs"]], default=-1)
+    if last_sig >= last_note_end:
+        pads[0] = True      # a signature would be the very last message of track 0: pad so that split keeps it
     return dict(piece, pad_tracks=pads)
 
 
@@ -164,11 +189,62 @@ def observe_detok(seqs, simplify):
     return out
 
 
+def interpret_stream(tokens, cfg):
+    """Harness-side reading of a token stream (independent of detokenise, tolerant of non-integer velocity fields such as
+    'vel_96.0'): per track the notes (pitch, onset, value, velocity field), the bar marks, the signature in force and the
+    time reached. Used for both streams alike, so the comparison stays relative."""
+    nt = cfg["ntracks"]
+    notes = [[] for _ in range(nt)]
+    marks = []
+    sig_pts = []
+    t = 0
+    t_bar = 0
+    num, den = 8, 8
+    cap_total = PPQN * 4 * num // den
+    cap_rem = cap_total
+    trk, val, vel = 0, 24, "127"
+    order = {"trk": 0, "val": 1, "vel": 2, "pit": 3}
+    for tok in tokens:
+        parts = [p.split("_") for p in tok.split("-")]
+        parts.sort(key=lambda p: order.get(p[0], -1))
+        for p in parts:
+            k = p[0]
+            if k in ("pad", "sta", "sto"):
+                continue
+            if k == "bar":
+                t += cap_rem
+                t_bar = 0
+                cap_rem = cap_total
+                marks.append(t)
+            elif k == "rst":
+                r = int(p[1])
+                t += r
+                t_bar += r
+                cap_rem -= r
+            elif k == "trk":
+                trk = int(p[1])
+            elif k == "val":
+                val = int(p[1])
+            elif k == "vel":
+                vel = p[1]
+            elif k == "pit":
+                if 0 <= trk < nt:
+                    notes[trk].append((int(p[1]), t, val, vel))
+            elif k == "tsg":
+                if t_bar == 0:
+                    num, den = int(p[1]), int(p[2])
+                    cap_total = PPQN * 4 * num // den
+                    cap_rem = cap_total
+                    sig_pts.append((t, (num, den)))
+    from sim.observe import function_in_force
+    return {"notes": [sorted(n) for n in notes], "bars": marks, "tsig": function_in_force(sig_pts, (8, 8)), "end": t}
+
+
 # ------------------------------------------------------------------ world
 
 class Client:
     __slots__ = ("piece", "route", "cuts", "chunks", "next", "state", "tokens", "tok", "restarts", "reference",
-                 "boundary_probe")
+                 "boundary_probe", "ref_stream")
 
     def __init__(self, piece, route, cuts):
         self.piece = piece
@@ -181,6 +257,7 @@ class Client:
         self.tok = None
         self.restarts = 0
         self.reference = None
+        self.ref_stream = None
 
 
 class TokWorld:
@@ -209,7 +286,16 @@ class TokWorld:
                 ref_tok = make_tokeniser(self.cfg)
                 whole = whole_for(cl.piece, cl.route)
                 toks = ref_tok.tokenise(whole, insert_bar_token=self.insert_bar)
-                cl.reference = observe_detok(ref_tok.detokenise(toks), self.cfg["flags"][4])
+                cl.ref_stream = interpret_stream(toks, self.cfg)
+                try:
+                    cl.reference = observe_detok(ref_tok.detokenise(toks), self.cfg["flags"][4])
+                except core.RunTimeout:
+                    raise
+                except Exception as e:
+                    # detokenise refuses e.g. 'vel_96.0' (velocity bins > 1): C01/C02's business. The stream is then judged
+                    # through the harness-side interpreter only.
+                    cl.reference = None
+                    self.stats[f"reach_detok/reference_refused:{type(e).__name__}"] += 1
                 cl.chunks = chunks_for(cl.piece, cl.route, cl.cuts)
             except core.RunTimeout:
                 raise
@@ -245,6 +331,21 @@ class TokWorld:
             cl.restarts += 1
         elif fault == "back_to_shared":
             cl.tok = self.shared
+        elif fault == "other_method":
+            # a training loop looks at what it has so far between two chunk calls: none of this may touch the stream state
+            for fn in (cl.tok.get_info, cl.tok.detokenise):
+                try:
+                    fn(list(cl.tokens))
+                except core.RunTimeout:
+                    raise
+                except Exception:
+                    pass
+            try:
+                cl.tok.tokenise([Sequence() for _ in range(self.cfg["ntracks"])], insert_bar_token=self.insert_bar)
+            except core.RunTimeout:
+                raise
+            except Exception:
+                pass
         if fault != "none":
             self.faults += 1
             self.stats[f"fault/{fault}"] += 1
@@ -279,6 +380,21 @@ class TokWorld:
 
     def _judge(self, ci, cl, idx):
         key = {"route": cl.route}
+        # 1. harness-side reading of both streams (also carries the velocity field, whatever detokenise thinks of it)
+        try:
+            mine = interpret_stream(cl.tokens, self.cfg)
+        except Exception as e:
+            return Violation("STREAM-UNREADABLE", f"client {ci} ({cl.route}): the chunked token stream cannot be read: "
+                             f"{type(e).__name__}: {e}", dict(key, kind="stream"), idx)
+        for fld, cls in (("notes", "NOTES"), ("bars", "BARS"), ("tsig", "SIGNATURE"), ("end", "DURATION")):
+            if mine[fld] != cl.ref_stream[fld]:
+                return Violation("CHUNK-" + cls, f"client {ci} route {cl.route} cuts {cl.cuts} restarts {cl.restarts}: token streams "
+                                 f"read differently, {fld} (chunked vs single call): "
+                                 f"{first_diff(mine[fld], cl.ref_stream[fld])}"[:600], dict(key, kind=fld), idx)
+        self.stats["reach_judged/streams_by_interpreter"] += 1
+        if cl.reference is None:
+            return None
+        # 2. the library's own detokenise on both streams
         try:
             tok = make_tokeniser(self.cfg)
             got = observe_detok(tok.detokenise(cl.tokens), self.cfg["flags"][4])
@@ -391,7 +507,7 @@ def gen_cfg(rng):
                                     ([2, 6, 24], None), ([12, 24], [12])])
     return {"ntracks": ntracks, "pitch_range": [lo, hi], "note_values": values, "step_sizes": step_sizes, "grids": grids,
             "ts_range": rng.choice([(2, 16), (2, 16), (1, 24), (2, 14)]),
-            "velocity_bins": 1 if rng.random() < 0.93 else rng.choice([2, 4, 8]),
+            "velocity_bins": 1 if rng.random() < 0.7 else rng.choice([2, 4, 8]),
             "flags": [rng.random() < 0.6, rng.random() < 0.5, rng.random() < 0.5, rng.random() < 0.5, rng.random() < 0.7],
             "insert_bar_token": rng.random() < 0.85}
 
@@ -412,7 +528,32 @@ def tok_run_one(seed, tier, index):
         else:
             piece = gen_piece(rng, cfg["ntracks"], cfg["note_values"], cfg["pitch_range"], tier=tier, grids=cfg.get("grids"),
                               ts_range=cfg.get("ts_range", (2, 16)))
-        clients.append({"piece": piece, "route": rng.choice(["R1", "R2", "R3", "R3"]), "cuts": gen_cuts(rng, piece)})
+        route = rng.choice(["R1", "R2", "R3", "R3", "R4"])
+        cuts = gen_cuts(rng, piece)
+        if route == "R4":
+            # unpadded group sequences are 'chunks of whole bars' only if each group's last bar holds a note (otherwise
+            # the sequence simply ends before its last bar)
+            gs = groups_of(len(piece["bars"]), cuts)
+            g_rest = max(cfg["grids"]) if cfg.get("grids") else 2
+
+            def _into(bar_index):
+                L = bar_len(*piece["bars"][bar_index]["sig"])
+                return g_rest * rng.randrange(1, max(2, L // g_rest))
+            if rng.random() < 0.4:
+                piece["tail_partial"] = [rng.randrange(piece["ntracks"]), _into(len(piece["bars"]) - 1)]
+            has = [any(piece["bars"][hi - 1]["tracks"][tr] for tr in range(piece["ntracks"])) for lo, hi in gs]
+            # a middle group whose last bar is note-less reaches into that bar only by a trailing rest on some track
+            piece["group_tails"] = {}
+            for (lo, hi), h in list(zip(gs, has))[:-1]:
+                if not h or rng.random() < 0.15:
+                    piece["group_tails"][str(hi)] = [rng.randrange(piece["ntracks"]), _into(hi - 1)]
+            ok = all(h or str(hi) in piece["group_tails"] for (lo, hi), h in list(zip(gs, has))[:-1]) and \
+                (has[-1] or piece.get("tail_partial") is not None)
+            if not ok:
+                route = "R3"
+                piece.pop("tail_partial", None)
+                piece.pop("group_tails", None)
+        clients.append({"piece": piece, "route": route, "cuts": cuts})
     init = {"cfg": cfg, "clients": clients}
     world = TokWorld(init)
     res = RunResult()
@@ -428,7 +569,7 @@ def tok_run_one(seed, tier, index):
             ci = rng.choice(live)
             fault = "none"
             if rng.random() < p_fault:
-                fault = rng.choice(["new_tok", "new_tok", "deepcopy", "dictcopy", "back_to_shared", "json"])
+                fault = rng.choice(["new_tok", "new_tok", "deepcopy", "dictcopy", "back_to_shared", "json", "other_method"])
             ev = {"client": ci, "fault": fault}
             events.append(ev)
             viol = world.apply(ev, len(events) - 1)
@@ -606,7 +747,7 @@ class C03Engine:
 
     @staticmethod
     def zero_cells(stats):
-        want = ["reach_route/R1", "reach_route/R2", "reach_route/R3", "reach_sig/change_exactly_at_chunk_start",
+        want = ["reach_route/R1", "reach_route/R2", "reach_route/R3", "reach_route/R4", "reach_sig/change_exactly_at_chunk_start",
                 "reach_sig/change_strictly_inside_chunk", "reach_empty/empty_bar_at_chunk_edge",
                 "reach_restart/streams_with_restart", "fault/new_tok", "fault/deepcopy", "fault/dictcopy", "fault/json",
                 "fault/other_client_used_same_tokeniser_between_calls"]
